@@ -405,6 +405,19 @@ func clHandshakeCarriesError(c *Ctx) {
 		}
 	}
 	c.Check(nInit == 1 && nTerm == 1, ck, nil, "each handshake request is answered exactly once", "an unanswered (or doubly answered) handshake blocks StoreToDisk or a later handshake for ever")
+	// the GC worker serves handshake requests and announces its shutdown
+	cw := p.Func("nitro", "Nitro", "collectionWorker")
+	cwfi := p.Info(cw)
+	fClosedCh := p.Field("nitro", "deltaWrContext", "closed")
+	served := len(p.CallSites(cw, ck)) >= 1
+	c.Check(served, cw, nil, "collection worker answers delta handshake requests (doCheckpoint)", "StoreToDisk with delta interleaving blocks for ever in its handshake")
+	announced := false
+	for _, in := range cwfi.Instrs {
+		if isBuiltin(in, "close") && lastField(callOf(in).Args[0]) == fClosedCh {
+			announced = true
+		}
+	}
+	c.Check(announced, cw, nil, "collection worker closes its 'closed' channel when gcchan is closed", "a StoreToDisk racing with Close blocks for ever in its handshake instead of returning ErrShutdown")
 	// changeDeltaWrState returns what it received
 	ch := p.Func("nitro", "Nitro", "changeDeltaWrState")
 	cfi := p.Info(ch)
